@@ -41,14 +41,15 @@ def main():
     out = {}
     for sd in ["<unchanged>"] + seeds:
         if sd != "<unchanged>":
-            r = subprocess.run(["git", "-C", REPO, "apply", f"{SEEDS_DIR}/{sd}/patch.diff"], capture_output=True, text=True)
+            patch = os.path.join(ROOT, sd) if sd.endswith(".diff") else f"{SEEDS_DIR}/{sd}/patch.diff"
+            r = subprocess.run(["git", "-C", REPO, "apply", patch], capture_output=True, text=True)
             if r.returncode != 0:
                 print(f"{sd}: patch does not apply: {r.stderr}", flush=True)
                 continue
         row = {}
         try:
             row_props = props
-            if os.environ.get("MATRIX_DIAG") and sd != "<unchanged>":
+            if os.environ.get("MATRIX_DIAG") and sd != "<unchanged>" and not sd.endswith(".diff"):
                 # only the check of the property the change is aimed at
                 own = json.load(open(f"{SEEDS_DIR}/{sd}/meta.json"))["breaks_property"]
                 row_props = [own]
